@@ -675,7 +675,7 @@ func hexval(r rune) rune {
 	switch {
 	case r >= 'a' && r <= 'f':
 		return r - 'a' + 10
-	case r >= 'A' && r <= 'Z':
+	case r >= 'A' && r <= 'F':
 		return r - 'A' + 10
 	case r >= '0' && r <= '9':
 		return r - '0'
